@@ -1,7 +1,7 @@
 /*
  * C07: the tar record state machine read_header() with decode_header(),
  * check_version(), is_checksum_valid() (lib/tar/src/read_header.c,
- * #included), real read_number (number.c), real clear_header /
+ * #included), read_number as a contract stub (decided on its own in C04), real clear_header /
  * free_sparse_list (cleanup.c), on a stream of up to K records whose 512
  * bytes are ALL symbolic (string fields are either short or completely filled, see shape_field).
  *
@@ -85,6 +85,16 @@ sqfs_s32 sqfs_istream_read(sqfs_istream_t *s, void *data, size_t size)
 }
 int sqfs_istream_skip(sqfs_istream_t *s, sqfs_u64 size) { (void)s; (void)size; skips++; return ND_BOOL() ? SQFS_ERROR_IO : 0; }
 unsigned int tar_compute_checksum(const tar_header_t *h) { (void)h; return ND_U32(); }
+/* contract stub: the numeric field decoder is decided on its own for every
+   field content (C04 tar_number_untrusted_w8/w12: memory safe, result or
+   error); here it delivers any value or an error, which is a superset */
+int read_number(const char *str, int digits, sqfs_u64 *out)
+{
+	VP_ASSERT(VP_R_OK(str, (size_t)digits) && (digits == 8 || digits == 12), "numeric field decoder is given a whole header field");
+	if (ND_BOOL()) { diag++; return -1; }	/* the real one prints "numeric overflow parsing tar header" */
+	*out = ND_U64();
+	return 0;
+}
 /* over-approximation: any record may be taken for an all-zero one (the real
    test is a 512 byte scan; its answer only selects between "skip this record"
    and "parse it", both of which are explored for every content) */
@@ -126,6 +136,13 @@ sparse_map_t *read_gnu_old_sparse(sqfs_istream_t *fp, tar_header_t *hdr) { (void
 sparse_map_t *read_gnu_new_sparse(sqfs_istream_t *fp, tar_header_decoded_t *out) { (void)fp; (void)out; return mk_sparse(); }
 void sqfs_xattr_list_free(sqfs_xattr_t *l) { VP_ASSERT(l == NULL, "no xattr list in this harness"); }
 #if VP_CBMC
+/* CBMC has no models of strnlen / strndup */
+size_t strnlen(const char *s, size_t n)
+{
+	size_t l = 0;
+	while (l < n && s[l] != 0) ++l;
+	return l;
+}
 char *strndup(const char *s, size_t n)
 {
 	size_t l = 0; char *r;
